@@ -60,8 +60,12 @@ func ext_xxh3_Hash(b []byte) (h uint64) {
 // `block` is Recover's local variable (bound by name).
 func ext_bytes_NewReader(b []byte, block *DataBlock[any]) (r any) {
 	requires("checksum_verified", block.CheckSum == gh_lastHash())
+	set(gh_lastType(), block.Type)
 	return
 }
+
+// ghost: the type of the last block whose checksum was verified in this Recover
+func gh_lastType() uint8 { panic("ghost") }
 
 // the clock origin is adopted from the stream exactly when the metadata block has passed the version check.
 // `m` and `version` are Recover's locals (bound by name): C12 "a stream saved under another version is
@@ -81,7 +85,9 @@ func (s *Store[K, V]) spec_insertSimple(entry *Entry[K, V]) {
 func (s *Store[K, V]) spec_Recover(version uint64, reader any) (err error) {
 	flag("wheel_unchecked_links")
 	requires("wf", sp_wfStore(s) && s.policy.window != nil && s.policy.slru != nil && s.policy.slru.protected != nil && s.policy.slru.probation != nil && s.policy.sketch != nil && s.policy.slru.probation.capacity == 0)
-	requires("fresh_load", !gh_metaSeen())
+	requires("fresh_load", !gh_metaSeen() && gh_lastType() != 255)
+	// C12: success is reported only after the end block has been read (a truncated stream is an error)
+	ensures("nil_only_after_end", imp(err == nil, gh_lastType() == 255))
 	return
 }
 
